@@ -2,6 +2,7 @@ package runner
 
 import (
 	"context"
+	"strings"
 
 	"github.com/prometheus/prometheus/model/labels"
 	"github.com/prometheus/prometheus/promql/parser"
@@ -112,5 +113,39 @@ func binNodeAmbiguous(c *core.Case, b *parser.BinaryExpr, st *memstore.Store) bo
 	// (they differ only in the metric name, which the result drops).
 	return dup(many, func(ls labels.Labels) string {
 		return labels.NewBuilder(ls).Del(labels.MetricName).Labels(nil).String()
+	})
+}
+
+func init() {
+	// KF-samelabelset: operators that drop the metric name never check that the
+	// resulting vector has unique label sets; the reference fails such a query with
+	// "vector cannot contain metrics with the same labelset". The trigger is exactly
+	// that: the data holds two series that differ only in the metric name and the
+	// reference engine fails the input with this error.
+	kf.Register("ref-same-labelset-error", func(c *core.Case, expr parser.Expr) bool {
+		if expr == nil || c.Query == "" {
+			return false
+		}
+		seen := map[string]bool{}
+		collide := false
+		for _, s := range c.Series {
+			k := labels.NewBuilder(s.Lset()).Del(labels.MetricName).Labels(nil).String()
+			if seen[k] {
+				collide = true
+				break
+			}
+			seen[k] = true
+		}
+		if !collide {
+			return false
+		}
+		st := memstore.New(c.Series)
+		s := st.Session()
+		s.Shuffle = c.Shuffle
+		r, err := Run(context.Background(), NewRef(c.Lookback), s, QueryOpts(c.QLookback), c.Query, c.Start, c.End, c.Step)
+		if err != nil || r.Err == nil {
+			return false
+		}
+		return strings.Contains(r.Err.Error(), "vector cannot contain metrics with the same labelset")
 	})
 }
